@@ -206,6 +206,11 @@ def rewrite(rng, e, kind):
             else:
                 y = simple_obs(rng, 0)
                 new = ("oor", [s, (rng.choice(["oand", "ofb"]), [s, y])])
+        elif kind == "absorb-wrong" and k == "obs" and rng.random() < 0.5:
+            # multiset, not set, containment: (X AND X) is not absorbed by / does not absorb (X AND Y)
+            op = rng.choice(["oand", "ofb"])
+            new = ("oor", [(op, [s, s]), (op, [s, simple_obs(rng, 0)] if rng.random() < 0.5 else [simple_obs(rng, 0), s])])
+            return replace(e, path, new), replace(e, path, (op, [s, s]))
         elif kind == "absorb-wrong" and k == "ofb" and len(s[1]) >= 2:
             ops = list(s[1])
             if rng.random() < 0.6:
@@ -360,14 +365,25 @@ def wl_rewrites(ctx, rng, i):
         ctx.violation("not-reflexive", "a pattern is reported as not equivalent to itself", {"pattern": ptxt})
     kinds = [focus] + rng.sample([k for k in RIGHT if k != focus], 2) + rng.sample([k for k in WRONG if k != focus], 2)
     chain = [(p, ptxt)]
+    p0, ptxt0 = p, ptxt
     for kind in kinds:
+        p, ptxt = p0, ptxt0
         q = rewrite(rng, p, kind)
         if q is None:
             continue
+        p_here, ptxt_here = p, ptxt
+        if isinstance(q, tuple) and len(q) == 2 and isinstance(q[0], tuple) and q[0] and isinstance(q[0][0], str) and isinstance(q[1], tuple) \
+                and q[1] and isinstance(q[1][0], str) and q[0][0] in P.PREC and q[1][0] in P.PREC and not isinstance(q[0][1], str):
+            q, p_here = q
+            ptxt_here = prepare(rng, p_here)
+            if ptxt_here is None:
+                continue
         qtxt = prepare(rng, q)
         if qtxt is None:
             ctx.skip("rewrite produced text the validator rejects")
             continue
+        p_saved, ptxt_saved = p, ptxt
+        p, ptxt = p_here, ptxt_here
         ans = lib_eq(ctx, ptxt, qtxt, [p, q], kind)
         if ans is None:
             continue
@@ -397,6 +413,8 @@ def wl_rewrites(ctx, rng, i):
                 ctx.violation("documented-rewrite-not-recognised:" + kind, "patterns related by %s are reported as not equivalent" % kind, w)
             elif verdict == "separated":
                 ctx.count("generator_rewrite_not_semantics_preserving")
+        p, ptxt = p_saved, ptxt_saved
+    p, ptxt = p0, ptxt0
     # transitivity along the chain of confirmed-equivalent rewrites
     if len(chain) >= 3:
         a, b, c = chain[0], chain[1], chain[2]
